@@ -8,6 +8,7 @@ from .common import FIXED_OFFSETS, HI, LO, NAIVE, UTCZ, anomalies, pick, real_zo
     wall_of_localsec, zone_transitions
 
 ENTRIES = ("interval", "interval_abs", "Interval", "sub", "diff", "diff_default", "abs", "sub_native", "rsub_native")
+NK = ("same", "timezone", "zoneinfo")          # tzinfo kind of the native operand of sub_native / rsub_native
 D_ENTRIES = ("interval", "interval_abs", "sub", "diff", "diff_default", "abs")
 
 
@@ -55,7 +56,7 @@ def drive(ctx):
                     vb = mk_dt({"n": rnd.choice(pool), "fo": 0}, y[0], y[1])     # different zones
                 else:
                     vb = mk_dt({"n": "", "fo": rnd.choice(FIXED_OFFSETS)}, y[0], y[1])
-                ctx.emit("iv_len", {"entry": ENTRIES[n % len(ENTRIES)]}, [va, vb])
+                ctx.emit("iv_len", {"entry": ENTRIES[n % len(ENTRIES)], "nk": NK[(n // 9) % 3]}, [va, vb])
         # both occurrences of ambiguous wall times against each other (same object)
         for (kind, ws, we, _s, _b, _a) in pick(rnd, [x for x in anomalies(ctx, zn) if x[0] == "overlap"], 3 if q else 30):
             w1 = wall_of_localsec(ws + (we - ws) // 3, 0)
@@ -140,5 +141,5 @@ def drive(ctx):
             ctx.emit("iv_len", {"entry": ENTRIES[k % len(ENTRIES)]},
                      [mk_dt({"n": rnd.choice(pool), "fo": 0}, w1, 0), mk_dt({"n": rnd.choice(pool), "fo": 0}, w2, 1)])
         else:
-            ctx.emit("iv_len", {"entry": ENTRIES[k % len(ENTRIES)]},
+            ctx.emit("iv_len", {"entry": ENTRIES[k % len(ENTRIES)], "nk": NK[(k // 4) % 3]},
                      [mk_dt(UTCZ, w1, 0), mk_dt({"n": "", "fo": rnd.randrange(-86399, 86400)}, w2, 0)])
